@@ -4,7 +4,7 @@
 use crate::evaluation::canonization::get_canonical_and_renaming;
 use crate::evaluation::{FormulaWithDomains, VarDomainMap};
 use crate::preprocessing::hctl_tree::{HctlTreeNode, NodeType};
-use crate::preprocessing::operator_enums::Atomic;
+use crate::preprocessing::operator_enums::{Atomic, HybridOp};
 
 use std::cmp::Ordering;
 use std::collections::{BinaryHeap, HashMap, HashSet};
@@ -158,12 +158,15 @@ pub fn mark_duplicates_canonized_multiple(
                 heap_queue.push(NodeWithDomains::new(left, current_node.domains.clone()));
                 heap_queue.push(NodeWithDomains::new(right, current_node.domains.clone()));
             }
-            NodeType::Hybrid(_, variable, domain, child) => {
+            NodeType::Hybrid(op, variable, domain, child) => {
                 let mut child_w_domains = NodeWithDomains::new(child, current_node.domains.clone());
                 // add the domain of the new quantified variable to the domain list
-                child_w_domains
-                    .domains
-                    .insert(variable.clone(), domain.clone());
+                // (jump is not a quantifier, its variable keeps the domain of its binder)
+                if !matches!(op, HybridOp::Jump) {
+                    child_w_domains
+                        .domains
+                        .insert(variable.clone(), domain.clone());
+                }
                 heap_queue.push(child_w_domains);
             }
         }
